@@ -851,6 +851,12 @@ func isSafeForMultilineReverseSuffix(re *syntax.Regexp) bool {
 	if !isMultilineLineAnchored(re) {
 		return false
 	}
+	// The searcher looks for a match only at the start of the line that holds a suffix
+	// candidate. That finds every match only if a match cannot span lines: with (?s:.),
+	// [^a] or a literal "\n" a match may begin on an earlier line that has no candidate.
+	if canMatchNewline(re) {
+		return false
+	}
 
 	switch re.Op {
 	case syntax.OpConcat:
@@ -885,6 +891,32 @@ func isSafeForMultilineReverseSuffix(re *syntax.Regexp) bool {
 	default:
 		return false
 	}
+}
+
+// canMatchNewline reports whether some match of re can contain a '\n'.
+func canMatchNewline(re *syntax.Regexp) bool {
+	switch re.Op {
+	case syntax.OpAnyChar:
+		return true
+	case syntax.OpLiteral:
+		for _, r := range re.Rune {
+			if r == '\n' {
+				return true
+			}
+		}
+	case syntax.OpCharClass:
+		for i := 0; i+1 < len(re.Rune); i += 2 {
+			if re.Rune[i] <= '\n' && '\n' <= re.Rune[i+1] {
+				return true
+			}
+		}
+	}
+	for _, sub := range re.Sub {
+		if canMatchNewline(sub) {
+			return true
+		}
+	}
+	return false
 }
 
 // isWildcardOp checks if the op is a wildcard pattern (.*, .+, or [charclass]+)
